@@ -24,7 +24,8 @@ MANIFEST = dict(
          "(1e6 thorough), tiny) x b in {1.001,1.2,1.5,2} x u16/u32 x m in {16,256} with documented (a,q), plus heavily "
          "clipped (a,q). Bounds contract: TLC enumerates the input grid of get_jaccard_bounds (8 bases x fractions k/m), the "
          "harness replays it and TraceBounds.tla validates: returned, lo <= hi + 1e-9, and lo - 1e-4 <= J <= hi + 1e-4 for "
-         "oracle collision probabilities of triples with known J in the documented regime.",
+         "oracle collision probabilities of triples with known J in the documented regime."
+             " Every bounds call is repeated in another thread after other calls and must return the same bits; cells on sketchers built through Default.",
     design_ref="DESIGN.md section 2.6 and section 4, C07",
     note="the expectation itself is decided by a statistical test (not model checking): effects below the radius (0.004-0.04 "
          "quick, 0.002-0.015 thorough, depending on the cell) are invisible; false-alarm probability <= 1e-9 per cell and <= 1e-8 per run; the "
